@@ -39,6 +39,7 @@ type halfPipe struct {
 	tap      []TapRecord
 	tapOn    bool
 	written  int
+	nread    int
 	closeAt  int // close the whole connection when written reaches this (0 = never)
 	onCloseA func()
 }
@@ -124,6 +125,13 @@ func (c *Conn) CloseAfterWritten(n int) {
 	c.wr.mu.Unlock()
 }
 
+// ReadCount returns the number of bytes read on this end so far.
+func (c *Conn) ReadCount() int {
+	c.rd.mu.Lock()
+	defer c.rd.mu.Unlock()
+	return c.rd.nread
+}
+
 // Written returns the number of bytes written on this end.
 func (c *Conn) Written() int {
 	c.wr.mu.Lock()
@@ -175,6 +183,7 @@ func (c *Conn) Read(p []byte) (int, error) {
 		}
 	}
 	h.pending -= n
+	h.nread += n
 	h.cond.Broadcast()
 	return n, nil
 }
